@@ -42,13 +42,25 @@ ASSUMPTIONS = [
 K_SHORT = "unroll-pipeline: trip count < stages-1: unconditional prologue/epilogue execute iterations outside [lb, ub)"
 K_POST = "pipeline-duplicate-buffers: duplicated buffer is read after the loop (holds iteration ub-2 when ub-1 is odd)"
 K_RW = "pipeline-duplicate-buffers: read-modify-write output (linalg outs used by the body) is duplicated: loop-carried contents are lost"
+K_SCALAR = ("construct-pipeline: non-memref stage operand computed from the induction variable bypasses pipeline.index "
+            "(used outside the loop / for the wrong iteration)")
+K_ALIAS = ("pipeline-duplicate-buffers: loop-carried dependence between stages through distinct subviews of one buffer is not "
+           "seen (sharing is tracked per SSA value); the stages are overlapped anyway")
+K_SHAPE = ("construct-pipeline: stage collection stops before scf.yield (index op or second barrier after >= 2 complete stages): "
+           "only the prefix is pipelined, the remaining ops stay in the shortened loop")
+K_ITER = "construct-pipeline: loop with iter_args is pipelined (carried value used outside the loop / advanced stages-1 times less)"
 K_LB = "unroll-pipeline: lb != 0 or step != 1 reaches the pass: prologue starts at 0 and lower bound is overwritten with stages-1"
+
+# Loops whose stages depend on each other across iterations through *distinct* subviews of one buffer: the compiler applies the
+# pipeline passes to every loop of the recognised shape on its own initiative, so a missing dependence check is the passes'
+# defect (same stance as C13 / DESIGN 6.11). Set to False to treat tile independence as a precondition instead (then: Outside).
+ALIAS_IN_DOMAIN = True
 
 PASSES = ("construct-pipeline", "pipeline-duplicate-buffers", "unroll-pipeline")
 
 
 class LoopInterp(Interp):
-    """scf.for without iter_args, remembering the induction values; `forced` replaces the iteration space."""
+    """scf.for, remembering the induction values; `forced` replaces the iteration space."""
 
     def __init__(self, module, machine, forced=None, **kw):
         super().__init__(module, machine, **kw)
@@ -56,21 +68,23 @@ class LoopInterp(Interp):
         self.loops: list = []  # (lb, ub, step, [induction values])
 
     def exec_op(self, op, env):
-        if op.name == "scf.for" and not op.iter_args:
+        if op.name == "scf.for":
             lb, ub, step = (self.get(env, v) for v in (op.lb, op.ub, op.step))
             if step <= 0:
                 raise InterpError("non-positive step")
             its = list(self.forced) if self.forced is not None else list(range(lb, ub, step))
             self.loops.append((lb, ub, step, its))
+            carried = [self.get(env, a) for a in op.iter_args]
             for i in its:
                 self.m.cur_iter = i
-                kind, _ = self.run_region(op.body, [i], env)
+                kind, carried = self.run_region(op.body, [i] + carried, env)
                 if kind != "yield":
                     raise InterpError("loop body left by " + kind)
                 self.steps += 1
                 if self.steps > self.budget:
                     raise StepBudget("step budget")
             self.m.cur_iter = None
+            self.set_results(op, carried, env)
             return None
         return super().exec_op(op, env)
 
@@ -100,11 +114,12 @@ def execute(module, built, terms, forced=None):
 
 
 def carried_through_views(m0, built, its):
-    """Loop-carried dependences of the sequential loop between *different* stages that no software pipelining keeps
-    (access of (iteration i, stage s) conflicts with a later (i', s') with s' < s and i' - i <= s - s': pipelined, the later one
-    runs in the same or an earlier epoch), where at least one side reaches the buffer through a memref.subview. The passes
-    document index-op results as "considered safe": independence of the tiles is the caller's obligation, so such a loop is
-    outside the domain. Dependences between whole buffers are the passes' own business and stay inside."""
+    """Does the sequential loop have a loop-carried dependence between *different* stages that software pipelining cannot
+    keep, with at least one side reaching the buffer through a memref.subview?  Precisely: an access of (iteration i, stage s)
+    conflicts (same physical buffer, overlapping rows, at least one write) with an access of a later iteration (i', s') where
+    s' < s and i' - i <= s - s'; pipelined, (i', s') runs in epoch i'+s' <= i+s, i.e. not after (i, s).
+    The passes track sharing per SSA value, so they see this for one SSA value used in several stages (and refuse it or
+    duplicate the buffer) but not for two different subviews of one buffer. See ALIAS_IN_DOMAIN."""
     pos = {v: k for k, v in enumerate(its)}
     by = {}
     for a in m0.acc:
@@ -188,9 +203,11 @@ def check_case(rc, want_text=False):
         # a failed verify() stops the real driver as well: a crash in the sense of DESIGN 3.5, recorded, not a violation
         raise Reject(f"crash: module does not verify after unroll-pipeline: {str(e)[:60]}")
     dom = dominance_errors(opt)
-    after = to_text(opt)
+    has_scalar = "op:gen-scalar-index-input" in built.features
     if dom:
-        raise Violation("output:use before definition after unroll-pipeline", dict(errors=dom[:3], before=to_text(ref), after=after))
+        iter_arg = bool(rc.get("tail")) and rc["tail"][0] == "iter-arg"
+        raise Violation(K_ITER if iter_arg else K_SCALAR if has_scalar else "output:use before definition after unroll-pipeline",
+                        dict(errors=dom[:3], before=to_text(ref), after=to_text(opt)))
 
     terms = Terms()
     try:
@@ -205,14 +222,16 @@ def check_case(rc, want_text=False):
         raise Outside("no loop")
     lb, ub, step, its = it0.loops[0]
     trip = len(its)
-    if carried_through_views(m0, built, its):
-        raise Outside("loop-carried cross-stage dependence through a subview (tiles must be independent: index results are 'safe')")
+    alias = carried_through_views(m0, built, its)
+    if alias and not ALIAS_IN_DOMAIN:
+        raise Outside("loop-carried cross-stage dependence through a subview")
     try:
         m1, it1 = execute(opt, built, terms)
     except StepBudget:
         raise Outside("step budget (pipelined)")
     except UseBeforeDef as e:
-        raise Violation("output:use before definition at run time", dict(error=str(e), before=to_text(ref), after=after))
+        raise Violation(K_SCALAR if has_scalar else "output:use before definition at run time",
+                        dict(error=str(e), before=to_text(ref), after=to_text(opt)))
 
     dup = sorted(n for n, k in m1.n_physical().items() if k > m0.n_physical().get(n, 0))
     classes.append("trip<stages-1" if trip < S - 1 else "trip=stages-1" if trip == S - 1 else "trip=stages" if trip == S
@@ -221,18 +240,26 @@ def check_case(rc, want_text=False):
     classes.append("canonical-bounds" if (lb, step) == (0, 1) else "lb/step non-canonical at construct-pipeline")
     if (rc["lb"], rc["step"]) != (0, 1):
         classes.append("lb/step non-canonical in the source")
+    if trip != max(0, -((rc["lb"] - rc["ub"]) // rc["step"])):
+        classes.append("pipeline-canonicalize-for changed the trip count (C17, not judged here)")
     classes.append("pipelined" if constructed else "not-pipelined")
+    if alias:
+        classes.append("loop-carried dependence through distinct subviews")
     classes.append(f"duplicated:{min(len(dup), 3)}")
     classes += sorted(built.features)
     detail_base = dict(stages=S, lb=lb, ub=ub, step=step, trip=trip, duplicated=dup)
-    if want_text:
-        detail_base.update(before=to_text(ref), after=after)
 
     def fail(sig, **kw):
+        if alias and constructed and sig.startswith(("race:", "flow:", "final:")):
+            sig = K_ALIAS
+        if rc.get("tail") and constructed and rc["tail"][0] in ("mid-index", "double-sync"):
+            sig = K_SHAPE
+        if rc.get("tail") and constructed and rc["tail"][0] == "iter-arg":
+            sig = K_ITER
         d = dict(detail_base)
         d.update(kw)
         d.setdefault("before", to_text(ref))
-        d.setdefault("after", after)
+        d.setdefault("after", to_text(opt))
         raise Violation(sig, d)
 
     cov0, cov1 = m0.coverage(), m1.coverage()
@@ -264,6 +291,8 @@ def check_case(rc, want_text=False):
                 fail(known_region, **d)
             fail("coverage:differs from the sequential loop and from the documented short-loop/lb defect", **d,
                  predicted_minus_observed=_fmt_cov(pred - cov1), observed_minus_predicted=_fmt_cov(cov1 - pred))
+        if has_scalar:
+            fail(K_SCALAR, **d)
         kind = "missing and extra" if missing and extra else "missing" if missing else "extra"
         fail(f"coverage:{kind} (stage op, operand tiles) executions", **d)
 
@@ -297,7 +326,7 @@ def check_case(rc, want_text=False):
             # code after the loop reads a buffer: only the documented cause (it was duplicated) is classified as known
             srcs = {n for e in m1.events if e.tag in bad_tags for (md, n, _s, _o, _k) in e.operands if md in ("r", "rw")}
             if srcs and srcs <= set(dup):
-                known.append((K_POST, dict(detail_base, ops=sorted(bad_tags), before=to_text(ref), after=after,
+                known.append((K_POST, dict(detail_base, ops=sorted(bad_tags), before=to_text(ref), after=to_text(opt),
                                            sequential_reads=_show_terms(terms, next(iter(missing), None)),
                                            pipelined_reads=_show_terms(terms, next(iter(extra), None)))))
                 missing = extra = None
@@ -324,8 +353,14 @@ def check_case(rc, want_text=False):
              sequential=[terms.show(fin0[k]) if k in fin0 else "untouched" for k in bad[:3]],
              pipelined=[terms.show(fin1[k]) if k in fin1 else "untouched" for k in bad[:3]])
     nontrivial = constructed and trip >= 1 and len(dup) >= 1
-    return Info(nontrivial=nontrivial, classes=tuple(classes), evals=1, known=known,
-                sample=dict(before=to_text(ref), after=after) if want_text else None)
+    sample = None
+    if want_text and nontrivial and _SAMPLES[0] < 3:
+        _SAMPLES[0] += 1  # MLIR text for the first few samples of a process only (printing costs as much as the passes)
+        sample = dict(before=to_text(ref), after=to_text(opt))
+    return Info(nontrivial=nontrivial, classes=tuple(classes), evals=1, known=known, sample=sample)
+
+
+_SAMPLES = [0]
 
 
 def _inplace(e):
@@ -361,7 +396,7 @@ def prop_grid(rc):
             infos.append(i)
             known += i.known
         except Violation as v:
-            if v.signature in (K_SHORT, K_LB, K_RW):
+            if v.signature in (K_SHORT, K_LB, K_RW, K_ALIAS, K_SCALAR):
                 known.append((v.signature, dict(trip=t, detail=v.detail)))
                 continue
             if first_violation is None:
@@ -375,10 +410,16 @@ def prop_grid(rc):
     return Info(nontrivial=any(i.nontrivial for i in infos), classes=tuple(sorted(classes)), evals=len(rc["trips"]), known=known)
 
 
+def prop_shape(rc):
+    return check_case(rc, want_text=True)
+
+
 SUBS = [
     Sub("loop", lambda tier: G.loop_recipe(tier), prop_loop, budget=dict(quick=2000, thorough=50000),
         floor=dict(quick=100, thorough=2500),
         nontrivial_rule="pipeline constructed, trip count >= 1, at least one buffer duplicated"),
+    Sub("shape", lambda tier: G.shape_recipe(tier), prop_shape, budget=dict(quick=300, thorough=3000),
+        nontrivial_rule="the deviating loop was pipelined anyway (trip count >= 1, a buffer duplicated)"),
     Sub("grid", lambda tier: st.nothing(), prop_grid, budget=dict(quick=0, thorough=0), exhaustive=G.grid, exhaustive_only=True,
         nontrivial_rule="assignment accepted by the passes with a duplicated buffer (all trip counts 0..8 executed)"),
 ]
